@@ -113,7 +113,7 @@ on `stream.Merge`, i.e. on the same defect the ownership rule found (F2).
 /verif/controls/Cnn/*.diff 121 one-line control edits (tools/gen_controls.py)
 /verif/seeded/*/           659 sub-agent mutations with demonstration tests and meta.json
 /verif/refactorings/*/     behaviour-preserving refactorings used as false-alarm tests
-/verif/tools/              baseline.sh, seed_import.sh, seed_confirm.sh, seed_run.sh, ref_run.sh, ref_all.sh, regress.sh,
+/verif/tools/              baseline.sh, seed_import.sh, seed_confirm.sh, seed_run.sh, ref_run.sh, ref_all.sh, regress.sh, seed_on_refactorings.sh,
                            gen_manifest.py, gen_matrix.py, gen_design.py, validate.py
 ```
 
@@ -737,6 +737,14 @@ to `/repo` itself, checked, and undone (`tools/seed_confirm.sh`, recorded in
   (reducers that drain through `drain` / `nextItem` / `advance` / `each` helpers or a
   `for ; err == nil; item, err = s.Next(ctx)` loop; a loop-header length test judged
   stale because of the store at the loop's end); all five shapes are followed now.
+  Spot checks on the refactored reducers (`nextItem` answering `false, nil` on an
+  expired context before it pulls, `drain` stopping after the first item): reported.
+  *Composition test* (`tools/seed_on_refactorings.sh`): each of the 39 seeds applied
+  on top of every kept refactoring of its property on which the patch still applies
+  and builds, the refactorings that alarm on their own left out: 1,210 compositions,
+  all reported. One of the new rules is stricter than the property: `C19.std-namesake-forwarders`
+  would also report a *correct* shortcut in front of the forwarded call (`if len(s) == 0
+  { return -1 }` in `Index`); none of the kept refactorings of C19 has one.
 
 A rule written after seeing a seed says so above; that is the honest reading of
 "caught": all 659 seeds are reported today; in rounds 2-12, 413 of 619 were
